@@ -413,7 +413,9 @@ let () = Conv.register "C10-price" run_price
 (* entry "C10-v1": generation 1 (x/auction) vault / lend Dutch auctions, keeper-driven histories *)
 open DutchV1
 
-type v1m = { vid : string; vao : BinNums.coq_Z; vcoll : BinNums.coq_Z; mutable vau : v1auc }
+(* [vlv]: the locked borrow behind a lend auction (amounts from the start op; no bid or tick changes them),
+   [vlvid]: its LockedVaultId ("" for vault auctions) *)
+type v1m = { vid : string; vao : BinNums.coq_Z; vcoll : BinNums.coq_Z; mutable vau : v1auc; vlv : v1lv; vlvid : string }
 
 (* L line: auc_c auc_d own_c col_d brn_d pool_d lend_d b0c b0d b1c b1d b2c b2d nf_found nf *)
 let v1_ids = [| coq_AUC_C; coq_AUC_D; coq_OWN_C; coq_COL_D; coq_BRN_D; coq_POOL_D; coq_LEND_D;
@@ -447,12 +449,54 @@ let run_v1 (path : string) =
   let last_bid : (string * int * string) option ref = ref None in
   let last_tick = ref false in
   let good_bid = ref false in
+  (* lend: what the MODEL says a closed auction left of its locked borrow (by LockedVaultId), checked against the
+     start op of the next auction on the same locked borrow *)
+  let lv_left : (string, v1lv) Hashtbl.t = Hashtbl.create 8 in
+  let curK : (string * (string * bool * v1lv)) list ref = ref [] in
+  let show_lv (l : v1lv) = zs l.lv_in ^ "," ^ zs l.lv_out ^ "," ^ zs l.lv_uout in
   let sig_ = Buffer.create 256 in
   let end_case () =
     if !case <> "" then begin
       incr cases; if !good_bid then incr nontrivial;
       Hashtbl.replace distinct (Digest.string (Buffer.contents sig_)) ()
     end in
+  (* one bid on the model; [feeds] = (debt feed, collateral feed) as the harness found them at the bid *)
+  let do_bid aid who amt wrong (pin, pout) cls =
+    match L.find_opt (fun m -> m.vid = aid) !live with
+    | None -> if cls <> "err" then mismatch ~case:!case ~step:!step ~field:"v1.bid.result" ~model:"err(no auction)" ~impl:cls
+    | Some m ->
+      (* classify what the close has to decide, for the evidence histograms *)
+      (if !cf.v_lend then
+         match v1_place_bid_core !cf m.vao m.vau !st (z who) (z amt) (bool_of_tok wrong) with
+         | Base.Ok ((_, None), _) ->
+           (match v1_lend_unliquidate !cf m.vlv m.vau.i_target pin pout with
+            | Base.Ok None ->
+              bump "v1:lend_close:borrow_cleared";
+              if pin = None || pout = None then bump "v1:lend_close:borrow_cleared_no_feed_needed_and_one_inactive"
+            | Base.Ok (Some _) -> bump "v1:lend_close:ratio_computed"
+            | Base.Err _ ->
+              bump "v1:lend_close:refused_feed_inactive";
+              bump (if pout = None then "v1:lend_close:refused_collateral_feed" else "v1:lend_close:refused_debt_feed")
+            | Base.Panic -> bump "v1:lend_close:panic")
+         | _ -> ());
+      (match v1_place_bid !cf m.vao m.vlv m.vau !st (z who) (z amt) (bool_of_tok wrong) pin pout with
+       | Base.Ok ((s', a'), r) ->
+         if cls <> "ok" then mismatch ~case:!case ~step:!step ~field:"v1.bid.result" ~model:"ok" ~impl:cls
+         else begin
+           st := s';
+           (match a' with
+            | Some a -> m.vau <- a; bump "v1:bid:partial"
+            | None ->
+              live := L.filter (fun x -> x.vid <> aid) !live; bump "v1:bid:closing";
+              if !cf.v_lend then Hashtbl.replace lv_left m.vlvid (v1_lv_after_close m.vlv m.vau.i_target));
+           if r.w_reached then bump "v1:bid:target_reached";
+           if BinInt.Z.gtb r.w_topup zzero then bump "v1:bid:sold_out_topup"
+         end
+       | Base.Err c ->
+         bump ("v1:bid:err" ^ zs c);
+         if cls <> "err" then mismatch ~case:!case ~step:!step ~field:"v1.bid.result" ~model:("err" ^ zs c) ~impl:cls
+       | Base.Panic ->
+         if cls <> "panic" then mismatch ~case:!case ~step:!step ~field:"v1.bid.result" ~model:"panic" ~impl:cls) in
   L.iter (fun line ->
       match tokens line with
       | "case" :: id :: buf :: cusp :: du :: dust :: dc :: dd :: lend :: bonus :: _ ->
@@ -463,24 +507,35 @@ let run_v1 (path : string) =
         st := { v_led = (fun _ -> zzero); v_netfee = None };
         live := []; rebase := true; prevL := None; curL := None; prevA := []; curA := [];
         Hashtbl.reset info; Hashtbl.reset sums; last_bid := None; last_tick := false; good_bid := false;
+        Hashtbl.reset lv_left; curK := [];
         Buffer.clear sig_; Buffer.add_string sig_ (S.concat " " [buf; cusp; du; dust; dc; dd; lend; bonus])
       | "op" :: "start" :: aid :: coll :: ao :: pen :: fees :: now :: ai :: pi :: ao_act :: po :: cls :: _ ->
         incr step; incr steps; bump "v1:op:start";
         Buffer.add_string sig_ (";S" ^ coll ^ ":" ^ ao);
         (match v1_activate !cf (z coll) (z ao) (z pen) (z fees) (z now) (zopt ai pi) (zopt ao_act po) with
          | Base.Ok a ->
-           live := !live @ [ { vid = aid; vao = z ao; vcoll = z coll; vau = a } ];
+           live := !live @ [ { vid = aid; vao = z ao; vcoll = z coll; vau = a; vlv = v1_no_lv; vlvid = "" } ];
            Hashtbl.replace info aid (a.i_target, z coll)
          | Base.Err _ -> mismatch ~case:!case ~step:!step ~field:"v1.start.result" ~model:"err" ~impl:cls
          | Base.Panic -> mismatch ~case:!case ~step:!step ~field:"v1.start.result" ~model:"panic" ~impl:cls);
         rebase := true; last_bid := None; last_tick := false
-      | "op" :: "lstart" :: aid :: coll :: target :: now :: ai :: pi :: ao_act :: po :: cls :: _ ->
-        (* lend: the auction's amounts are computed by the liquidation module; the record is taken as observed *)
+      | "op" :: "lstart" :: aid :: coll :: target :: now :: ai :: pi :: ao_act :: po :: cls :: lvid :: lvin :: lvout :: lvuout :: _ ->
+        (* lend: the auction's amounts and the locked borrow's are computed by the liquidation module; they are
+           taken as observed at the start - except the two debt amounts of a locked borrow the model has
+           already closed an auction on: those must be what the model's close left *)
         incr step; incr steps; bump "v1:op:lstart";
-        Buffer.add_string sig_ (";LS" ^ coll ^ ":" ^ target);
+        Buffer.add_string sig_ (";LS" ^ coll ^ ":" ^ target ^ ":" ^ lvin ^ ":" ^ lvout);
+        let lv = { lv_in = z lvin; lv_out = z lvout; lv_uout = z lvuout } in
+        (match Hashtbl.find_opt lv_left lvid with
+         | Some l ->
+           bump "v1:lstart:again_on_same_locked_borrow";
+           if not (zeq l.lv_out lv.lv_out) || not (zeq l.lv_uout lv.lv_uout) then
+             mismatch ~case:!case ~step:!step ~field:"v1.lstart.locked_debt" ~model:(zs l.lv_out ^ "," ^ zs l.lv_uout) ~impl:(lvout ^ "," ^ lvuout)
+         | None -> ());
+        bump (if BinInt.Z.eqb lv.lv_in zzero then "v1:lstart:collateral_all_seized" else "v1:lstart:collateral_left");
         (match v1_activate !cf (z coll) (z target) zzero zzero (z now) (zopt ai pi) (zopt ao_act po) with
          | Base.Ok a ->
-           live := !live @ [ { vid = aid; vao = zzero; vcoll = z coll; vau = a } ];
+           live := !live @ [ { vid = aid; vao = zzero; vcoll = z coll; vau = a; vlv = lv; vlvid = lvid } ];
            Hashtbl.replace info aid (a.i_target, z coll)
          | Base.Err _ -> mismatch ~case:!case ~step:!step ~field:"v1.start.result" ~model:"err" ~impl:cls
          | Base.Panic -> mismatch ~case:!case ~step:!step ~field:"v1.start.result" ~model:"panic" ~impl:cls);
@@ -494,32 +549,25 @@ let run_v1 (path : string) =
         if cls <> "ok" then mismatch ~case:!case ~step:!step ~field:"v1.tick.result" ~model:"ok" ~impl:cls;
         L.iter (fun m -> m.vau <- v1_tick !cf (z now) (zopt ai pi) (zopt ao_act po) m.vau) !live;
         last_bid := None; last_tick := true
+      | "op" :: "bid" :: aid :: who :: amt :: wrong :: ai :: pi :: ao_act :: po :: cls :: _ ->
+        (* lend harness: with the debt / collateral feed as found at the bid *)
+        incr step; incr steps; bump "v1:op:bid"; bump ("v1:bid:" ^ cls);
+        bump ("v1:bid:feeds_debt=" ^ ai ^ "_coll=" ^ ao_act);
+        Buffer.add_string sig_ (";B" ^ aid ^ ":" ^ who ^ ":" ^ amt ^ wrong ^ ai ^ ao_act);
+        do_bid aid who amt wrong (zopt ai pi, zopt ao_act po) cls;
+        if cls = "panic" then bump "v1:bid:panic_observed";
+        last_bid := Some (aid, int_of_string who, cls); last_tick := false
       | "op" :: "bid" :: aid :: who :: amt :: wrong :: cls :: _ ->
+        (* vault harness: a vault bid reads no feed *)
         incr step; incr steps; bump "v1:op:bid"; bump ("v1:bid:" ^ cls);
         Buffer.add_string sig_ (";B" ^ aid ^ ":" ^ who ^ ":" ^ amt ^ wrong);
-        (match L.find_opt (fun m -> m.vid = aid) !live with
-         | None -> if cls <> "err" then mismatch ~case:!case ~step:!step ~field:"v1.bid.result" ~model:"err(no auction)" ~impl:cls
-         | Some m ->
-           (match v1_place_bid !cf m.vao m.vau !st (z who) (z amt) (bool_of_tok wrong) with
-            | Base.Ok ((s', a'), r) ->
-              if cls <> "ok" then mismatch ~case:!case ~step:!step ~field:"v1.bid.result" ~model:"ok" ~impl:cls
-              else begin
-                st := s';
-                (match a' with Some a -> m.vau <- a; bump "v1:bid:partial"
-                             | None -> live := L.filter (fun x -> x.vid <> aid) !live; bump "v1:bid:closing");
-                if r.w_reached then bump "v1:bid:target_reached";
-                if BinInt.Z.gtb r.w_topup zzero then bump "v1:bid:sold_out_topup"
-              end
-            | Base.Err c ->
-              bump ("v1:bid:err" ^ zs c);
-              if cls <> "err" then mismatch ~case:!case ~step:!step ~field:"v1.bid.result" ~model:("err" ^ zs c) ~impl:cls
-            | Base.Panic ->
-              if cls <> "panic" then mismatch ~case:!case ~step:!step ~field:"v1.bid.result" ~model:"panic" ~impl:cls));
+        if !cf.v_lend then failwith "lend bid without its price feeds";
+        do_bid aid who amt wrong (None, None) cls;
         if cls = "panic" then bump "v1:bid:panic_observed";
         last_bid := Some (aid, int_of_string who, cls); last_tick := false
       | "L" :: rest ->
         let o = v1_parse_L rest in
-        curL := Some o; curA := [];
+        curL := Some o; curA := []; curK := [];
         if !rebase then begin
           let l = ref (fun _ -> zzero) in
           Array.iteri (fun i id -> l := upd !l id o.vb.(i)) v1_ids;
@@ -547,10 +595,18 @@ let run_v1 (path : string) =
       | "A" :: aid :: ocur :: itarget :: icur :: pout :: pin :: ptop :: pend :: s :: e :: _ ->
         curA := !curA @ [ (aid, { o_cur = z ocur; i_target = z itarget; i_cur = z icur; p_out = z pout; p_in = z pin;
                                   p_top = z ptop; p_end = z pend; t_start = z s; t_end = z e }) ]
+      | "K" :: aid :: lvid :: found :: lvin :: lvout :: lvuout :: _ ->
+        curK := !curK @ [ (aid, (lvid, bool_of_tok found, { lv_in = z lvin; lv_out = z lvout; lv_uout = z lvuout })) ]
       | "E" :: _ ->
         let ms = S.concat "|" (L.map (fun m -> m.vid ^ ":" ^ v1_show m.vau) !live) in
         let is = S.concat "|" (L.map (fun (aid, a) -> aid ^ ":" ^ v1_show a) !curA) in
         if ms <> is then mismatch ~case:!case ~step:!step ~field:"v1.auctions" ~model:ms ~impl:is;
+        (* lend: the locked borrow behind every live auction is what the model holds for it *)
+        if !cf.v_lend then begin
+          let mk = S.concat "|" (L.map (fun m -> m.vid ^ ":" ^ m.vlvid ^ ":1:" ^ show_lv m.vlv) !live) in
+          let ik = S.concat "|" (L.map (fun (aid, (lvid, f, l)) -> aid ^ ":" ^ lvid ^ ":" ^ tok_of_bool f ^ ":" ^ show_lv l) !curK) in
+          if mk <> ik then mismatch ~case:!case ~step:!step ~field:"v1.locked_borrows" ~model:mk ~impl:ik
+        end;
         let o = (match !curL with Some o -> o | None -> failwith "E without L") in
         (* price clauses between consecutive observations with the same StartTime *)
         if !last_tick then
